@@ -382,7 +382,7 @@ Lemma parse_arr_loop l es : Forall2 rt l es ->
 Proof.
   induction 1 as [|x ex l es Hx HF IH]; intros fuel acc rest Hf;
     (destruct fuel as [|f]; [lia|]); cbn [parse_arr].
-  - rewrite len_nil. cbn [N.eqb concat app map]. now rewrite app_nil_r.
+  - rewrite len_nil. cbn [N.eqb concat app map]. now rewrite <- rev_alt, app_nil_r.
   - rewrite len_cons_nz, len_cons_pred. rewrite asum_cons in Hf.
     cbn [concat]. rewrite <- app_assoc. rewrite (Hx f) by lia. cbn [obind].
     rewrite IH by lia. cbn [rev map]. now rewrite <- app_assoc.
@@ -398,7 +398,7 @@ Lemma parse_map_loop l es : Forall2 rt_kv l es ->
 Proof.
   induction 1 as [|kv ee l es Hx HF IH]; intros fuel acc rest Hf;
     (destruct fuel as [|f]; [lia|]); cbn [parse_map].
-  - rewrite len_nil. cbn [N.eqb concat app map]. now rewrite app_nil_r.
+  - rewrite len_nil. cbn [N.eqb concat app map]. now rewrite <- rev_alt, app_nil_r.
   - rewrite len_cons_nz, len_cons_pred. rewrite msum_cons in Hf.
     destruct Hx as (ex & -> & Hk & Hx).
     destruct f as [|f0]; [lia|].
@@ -590,12 +590,12 @@ Proof. reflexivity. Qed.
 Lemma parse_arr_S f c bs acc : parse_arr (S f) c bs acc =
   if c =? 0 then Some (VArr (rev acc), bs)
   else '(v, r) <~ parse f bs ;; parse_arr f (c - 1) r (v :: acc).
-Proof. reflexivity. Qed.
+Proof. rewrite ?rev_alt. reflexivity. Qed.
 
 Lemma parse_map_S f c bs acc : parse_map (S f) c bs acc =
   if c =? 0 then Some (VMap (rev acc), bs)
   else '(k, r) <~ parse f bs ;; '(v, r') <~ parse f r ;; parse_map f (c - 1) r' ((k, v) :: acc).
-Proof. reflexivity. Qed.
+Proof. rewrite ?rev_alt. reflexivity. Qed.
 
 (* ---------- consumption ---------- *)
 
